@@ -44,7 +44,16 @@ pub fn check_document(sources: &Sources, base_yaml: Option<&str>, r: &mut CaseRe
         Ok(f) => {
             r.nontrivial = f.refs >= 1 || f.path_variables >= 1 || f.operations >= 2;
             if f.explicit_id_duplicate {
-                r.label("explicit-operation-id-duplicate(out-of-domain)");
+                // A duplicate that the synthesis rule does not explain must involve an id somebody
+                // wrote (in the sources or in the base): otherwise the tool invented the collision.
+                let written = |id: &str| sources.files.values().any(|t| t.contains(id)) || base_yaml.map_or(false, |b| b.contains(id));
+                match f.other_duplicates.iter().find(|(id, _)| !written(id)) {
+                    Some((id, uses)) => r.fail(Failure::new(
+                        "c03:unexplained-operation-id-collision",
+                        format!("operationId {id:?} is used by {uses}; it is written neither in the sources nor in the base, and it is not what the documented synthesis (method and lower-cased segments, `root` for an empty one) gives for each of them"),
+                    )),
+                    None => r.label("explicit-operation-id-duplicate(out-of-domain)"),
+                }
             }
             r.count("refs_resolved", f.refs as u64);
             r.count("path_variables", f.path_variables as u64);
